@@ -558,7 +558,7 @@ def _mk_chart(notes, tempo, plain_dict=False, offset=0):
 
 
 def nps(form: int, n: int, ts0: int, ts1: int, ts2: int, en0: int, en1: int, en2: int,
-        a: int, b: int, ua: int, ub: int, inst_ok: bool, diff_ok: bool, off: int = 0) -> bool:
+        a: int, b: int, ua: int, ub: int, inst_ok: bool, diff_ok: bool, off: int = 0, kw: bool = False) -> bool:
     """
     pre: 0 <= form <= 5 and 0 <= off <= 3
     pre: 0 <= n <= NN
@@ -601,7 +601,11 @@ def nps(form: int, n: int, ts0: int, ts1: int, ts2: int, en0: int, en1: int, en2
         s_us, e_us = 0, _FuncMap.F(b)
     with H.patched((C, "timedelta", H.TD)):
         try:
-            got = chart.notes_per_second(inst, diff, *args)
+            if kw:      # the bounds by keyword (and the track by keyword as well)
+                kws = dict(zip(("start", "end"), args))
+                got = chart.notes_per_second(instrument=inst, difficulty=diff, **kws)
+            else:
+                got = chart.notes_per_second(inst, diff, *args)
         except ValueError:
             bad = (not inst_ok) or (not diff_ok) or n == 0 or e_us - s_us <= 0
             return done(bad)
